@@ -76,3 +76,53 @@ def rule_defn(P) -> RuleResult:
     if len(seen) < 15:
         raise AnalysisError(f'only {len(seen)} definitional functions found')
     return res
+
+
+# ----------------------------------------------------------------------
+# R-REDUCE (C12): f(inventory) is f(position) mapped over the positions of that very inventory
+
+def rule_reduce(P) -> RuleResult:
+    from beancount.core import inventory as _inv, position as _pos
+    res = RuleResult('R-REDUCE')
+    res.exhaustive = True
+    reg = registry.get(P)
+    by = reg.funcs_by_name()
+    CTX, VAL = Sym('CONTEXT'), Sym('VALUE')
+    n = 0
+    for name in ('units', 'cost', 'value', 'convert'):
+        pos_f = [f for f in by.get(name, []) if f.intypes and f.intypes[0] is _pos.Position and f.impl is not None]
+        inv_f = [f for f in by.get(name, []) if f.intypes and f.intypes[0] is _inv.Inventory and f.impl is not None]
+        if not pos_f or not inv_f:
+            raise AnalysisError(f'anchor vanished: position / inventory overloads of {name}()')
+        n += 1
+
+        def run(f):
+            fi = f.impl
+            off = 1 if (f.pass_context or f.pass_row) else 0
+            env = {p: Sym(f'EXTRA{i}') for i, p in enumerate(fi.params[off + 1:])}
+            env[fi.params[off]] = VAL
+            for p in fi.params[:off]:
+                env[p] = CTX
+            paths = Engine(P).paths(fi, env)
+            vals = {repr(_resolve_names(canon(p.value), fi.module)): _resolve_names(canon(p.value), fi.module) for p in paths if p.outcome == 'return'}
+            return fi, list(vals.values())
+        pfi, pvals = run(pos_f[0])
+        ifi, ivals = run(inv_f[0])
+        construct = f'function:{inv_f[0].label}'
+        ok = False
+        shown = ''
+        if len(pvals) == 1 and len(ivals) == 1:
+            pv, iv = pvals[0], ivals[0]
+            # position: F(VALUE, extras...) ; inventory: VALUE.reduce(F, extras...)
+            if isinstance(pv, tuple) and pv[0] == 'call' and pv[2][:1] == (VAL,) and isinstance(iv, tuple) and iv[0] == 'call' and iv[1] == 'VALUE.reduce':
+                fn = iv[2][0] if iv[2] else None
+                fn_name = fn[1] if isinstance(fn, tuple) and fn[0] == 'global' else None
+                ok = fn_name == pv[1] and iv[2][1:] == pv[2][1:] and not iv[3] and not pv[3]
+            shown = f'position: {pv}; inventory: {iv}'
+        if ok:
+            res.ok({'function': name, 'position': f'{pvals[0][1]}(pos, ...)', 'inventory': 'inv.reduce(the same function, the same extra arguments)'})
+        else:
+            res.fail(construct, 'reduce:definition', f'{name}(inventory) must be {name}(position) applied to every position of that very '
+                     f'inventory - inv.reduce(f, extra...) with the f and the extra arguments of the position overload - so that it commutes '
+                     f'with sum(); found {shown[:300] or "several different results"}', loc(ifi))
+    return res
